@@ -206,7 +206,7 @@ pub fn eval(expr: Node) -> Result<f64, Box<dyn error::Error>> {
             for arg in <Vec<Node> as Clone>::clone(&args).into_iter() {
                 results.push(eval(arg)?);
             }
-            results.sort_by(|a, b| a.partial_cmp(b).unwrap());
+            results.sort_by(|a, b| a.total_cmp(b));
             let len = results.len();
             if len % 2 == 0 {
                 Ok((results[len >> 1] + results[(len >> 1) - 1]) / 2.0)
